@@ -27,7 +27,8 @@ LEVEL_TEXT = ("Exploration: thousands of random operation histories (20-200 oper
               "node / path / branch / compartment handles and detached copies are re-validated "
               "after each step. Held = held on the histories produced."
               "Histories include parent-id writes through node handles (re-parenting), after which segments, relatives, paths and branches must follow."
-              " Path / Branch views are also built by the caller from a list, tuple, array or range of node ids.")
+              " Path / Branch views are also built by the caller from a list, tuple, array or range of node ids."
+              " Topology writes through handles of tree copies (segments and adjacency of the copy follow); views of 32 and more nodes over rows not stored in path order.")
 LEVEL_NOTE = ("Write-through is decided for node handles obtained from the tree (what the statement "
               "names); writes through node handles obtained from a Path/Branch go to a temporary "
               "copy today and are counted, not decided (DESIGN.md C09 scope note).")
